@@ -13,6 +13,9 @@ ASSUMPTIONS = ['v0->v1 migration inputs cannot be produced (no v0 writer); migra
                'metadata decoding is modelled for the empty map only (scripts use empty metadata when the damage is in the meta)']
 
 
+MS = {'-': 8, 'm1': 26}      # serialized size of the metadata map
+
+
 def gen_script(rng):
     K = 4
     m = rng.randrange(2, 7)
@@ -22,8 +25,9 @@ def gen_script(rng):
     for i in range(m):
         ln = rng.choice([0, 5, 40, 300])
         key = (16 + i).to_bytes(K, 'big').hex()
-        L.append('W %s %d - %d %d' % (key, 7, ln, 0 if ln == 0 else i + 1))
-        he = off + 61; me = he + 8; e = me + ln
+        meta = rng.choice(['-', '-', 'm1'])
+        L.append('W %s %d %s %d %d' % (key, 7, meta, ln, 0 if ln == 0 else i + 1))
+        he = off + 61; me = he + MS[meta]; e = me + ln
         layout.append((key, ln, 0 if ln == 0 else i + 1, off, he, me, e))
         off = e
     L.append('close')
@@ -46,7 +50,7 @@ def gen_script(rng):
         cls = rng.choice(['magic', 'key', 'ts', 'dcrc', 'hcrc', 'flags', 'off', 'off', 'meta', 'data', 'blobmagic'])
         pos = {'magic': s + 2, 'key': s + 17, 'ts': s + 46, 'dcrc': s + 54, 'hcrc': s + 58, 'flags': s + 36,
                'off': s + 37 + rng.randrange(8),
-               'meta': he + 1, 'data': me + (ln // 2) if ln > 0 else s + 46, 'blobmagic': 1}[cls]
+               'meta': rng.randrange(he, me), 'data': me + (ln // 2) if ln > 0 else s + 46, 'blobmagic': 1}[cls]
         if cls == 'data' and ln == 0: cls = 'ts'
         L.append('#DAMAGE flip %s rec=%d' % (cls, j))
         L.append('flip blob 0 %d %02x' % (pos, 1 << rng.randrange(8)))
@@ -65,6 +69,46 @@ def gen(tier, rng):
     return [('tools%05d' % i, gen_script(rng)) for i in range(n)]
 
 
+META_IMG = {'-': bytes(8), 'm1': (1).to_bytes(8, 'little') + (1).to_bytes(8, 'little') + b'v' + (1).to_bytes(8, 'little') + b'1'}
+
+
+def py_meta_ok(b):
+    """Format/Meta.v meta_ok: the bincode image of HashMap<String, Vec<u8>> decodes, takes exactly its bytes, no repeated key"""
+    def u64(i):
+        return (int.from_bytes(b[i:i + 8], 'little'), i + 8) if i + 8 <= len(b) else (None, i)
+    n, i = u64(0)
+    if n is None:
+        return False
+    keys = []
+    for _ in range(n):
+        kl, i = u64(i)
+        if kl is None or i + kl > len(b):
+            return False
+        try:
+            b[i:i + kl].decode('utf-8')
+        except UnicodeDecodeError:
+            return False
+        keys.append(bytes(b[i:i + kl])); i += kl
+        vl, i = u64(i)
+        if vl is None or i + vl > len(b):
+            return False
+        i += vl
+        if len(keys) > 64:
+            return False
+    return i == len(b) and len(set(keys)) == len(keys)
+
+
+def meta_still_ok(lines, rec, pos, mask):
+    """is `pos` inside the metadata of the record, and does the flipped image still satisfy meta_ok?"""
+    key, ln, seed, s, he, me, e = rec
+    if not (he <= pos < me):
+        return False
+    w = next(l.split() for l in lines if l.startswith('W %s ' % key))
+    img = bytearray(META_IMG[w[3]])
+    img[pos - he] ^= mask
+    return py_meta_ok(bytes(img))
+
+
 def oracle(lines, io, spec=None):
     fails = []
     K = 4
@@ -74,7 +118,7 @@ def oracle(lines, io, spec=None):
     for l in lines:
         t = l.split()
         if t[0] == 'W':
-            ln = int(t[4]); he = off + 61; me = he + 8; e = me + ln
+            ln = int(t[4]); he = off + 61; me = he + MS[t[3]]; e = me + ln
             layout.append((t[1], ln, int(t[5]), off, he, me, e)); off = e
         if t[0] == 'close':
             break
@@ -118,7 +162,10 @@ def oracle(lines, io, spec=None):
             intact, after = [], []
     o = out('tool validate_blob 0', 1)
     if damaged and o is not None and o.endswith(' ok'):
-        fails.append('validate_blob accepts a damaged blob (%s)' % dmg)
+        # finding F26: the metadata of a record is covered by no checksum; a flipped byte that leaves the map decodable
+        # in exactly its bytes (a content byte of a key or of a value) cannot be noticed by any reader
+        tag = '[F26] ' if (t[0] == 'flip' and damaged_rec is not None and meta_still_ok(lines, layout[damaged_rec], pos, int(t[4], 16))) else ''
+        fails.append('%svalidate_blob accepts a damaged blob (%s)' % (tag, dmg))
     if not damaged and o is not None and not o.endswith(' ok'):
         fails.append('validate_blob rejects a well-formed (shorter) blob (%s): %s' % (dmg, o))
     rec_line = next((l for l in lines if l.startswith('tool recover')), None)
